@@ -243,6 +243,16 @@ def replay_shear(impl, c, chk):
 REPLAYERS = {"tex": replay_tex, "fse": replay_fse, "shear": replay_shear}
 
 
+def _nontrivial(c):
+    """tex: the frame rotation is not axis-aligned (non-diagonal scatter matrix); fse: F is not symmetric
+    and the long axis is defined; shear: always."""
+    if c["kind"] == "tex":
+        return any(x[1] != 1 for r in c["Q"] for x in r)
+    if c["kind"] == "fse":
+        return bool(c["axisDefined"]) and c["F"] != [list(r) for r in zip(*c["F"])]
+    return True
+
+
 def _case_key(c):
     if c["kind"] == "tex":
         return ("tex", tuple(c["c"]), c["row"], c["pat"], json.dumps(c["Q"]))
@@ -468,7 +478,7 @@ def main(tier):
         except ImplError as ex:
             bad = 1
             chk.violation(dict(level="exact", clause="raised", call=ex.call, exc=ex.exc_name), f"{ex} on an exact {c['kind']} case", dict(case=c))
-        chk.count(_case_key(c))
+        chk.count(_case_key(c), nontrivial=_nontrivial(c))
         if c["kind"] not in shown and bad == 0 and (c["kind"] != "tex" or (c["n"] >= 3 and c["pat"] != 0)):
             shown.add(c["kind"])
             chk.sample(dict(kind="exact-" + c["kind"], case=c))
@@ -477,8 +487,21 @@ def main(tier):
     # negative controls for the replayers: wrong expected values and mutant implementations must be flagged
     def fires(fn, imp, case):
         probe = Check(PID, tier, dry=True)
-        fn(imp, case, probe)
+        try:
+            fn(imp, case, probe)
+        except ImplError:
+            return ["raised"]
         return sorted({json.loads(k)["clause"] for k, _, _ in probe.violations})
+
+    def impl_control(name, fired, detail=""):
+        """Controls that run the real functions presuppose that those functions satisfy the property
+        (a 'columns' mutant of an implementation that already uses columns is the correct program).
+        When this run has already found violations such a control is recorded but not enforced, so
+        that a broken implementation is reported as a violation (exit 1), not as machinery failure."""
+        if not fired and (chk.violations or chk.known_hits):
+            chk.cov["negative_controls"].append({"control": name, "fired": False, "detail": "not enforced - the implementation violates the property in this run; " + detail})
+            return
+        chk.control(name, fired, detail)
 
     def first(kind, pred):
         c = next((c for c in cases if c["kind"] == kind and pred(c)), None)
@@ -495,31 +518,31 @@ def main(tier):
                 and any(x[1] == 3 for r in c["Q"] for x in r) and c["coax"][0]["defined"])
     wrong = json.loads(json.dumps(tex))
     wrong["ax"][0]["pgr"][0], wrong["ax"][0]["pgr"][1] = wrong["ax"][0]["pgr"][1], wrong["ax"][0]["pgr"][0]
-    chk.control("replayer-flags-swapped-P-and-G", "pgr-value" in fires(replay_tex, impl, wrong))
+    impl_control("replayer-flags-swapped-P-and-G", "pgr-value" in fires(replay_tex, impl, wrong))
     wrong = json.loads(json.dumps(tex))
     wrong["ax"][0]["mean"] = [[3, 5], [4, 5], [0, 1]]
     wrong["coax"][0]["val"] = [wrong["coax"][0]["val"][0] + 1, wrong["coax"][0]["val"][1] * 7]
     f = fires(replay_tex, impl, wrong)
-    chk.control("replayer-flags-wrong-mean-axis-and-coaxial", "mean-axis" in f and "coaxial-value" in f, str(f))
-    chk.control("replayer-flags-column-scatter-mutant", *mutant_flagged(replay_tex, "columns", "tex", lambda c: c["n"] >= 2))
+    impl_control("replayer-flags-wrong-mean-axis-and-coaxial", "mean-axis" in f and "coaxial-value" in f, str(f))
+    impl_control("replayer-flags-column-scatter-mutant", *mutant_flagged(replay_tex, "columns", "tex", lambda c: c["n"] >= 2))
     fse = first("fse", lambda c: c["axisDefined"])
     wrong = dict(fse, stretch=[fse["stretch"][0] * 1000 + 1, fse["stretch"][1] * 1000])
-    chk.control("replayer-flags-wrong-stretch", "stretch" in fires(replay_fse, impl, wrong))
-    chk.control("replayer-flags-right-Cauchy-Green-mutant", *mutant_flagged(replay_fse, "rightCG", "fse", lambda c: c["axisDefined"], "long-axis"))
+    impl_control("replayer-flags-wrong-stretch", "stretch" in fires(replay_fse, impl, wrong))
+    impl_control("replayer-flags-right-Cauchy-Green-mutant", *mutant_flagged(replay_fse, "rightCG", "fse", lambda c: c["axisDefined"], "long-axis"))
     sh = first("shear", lambda c: c["docstringFrame"])
     wrong = json.loads(json.dumps(sh).replace(json.dumps(["atan", ["q", sh["t"]]]), json.dumps(["atan", ["q", [sh["t"][1], sh["t"][0]]]])))
     if wrong == sh:
         raise MachineryError("could not corrupt the angle term")
-    chk.control("replayer-flags-complementary-angle", "helper-closed-form" in fires(replay_shear, impl, wrong))
+    impl_control("replayer-flags-complementary-angle", "helper-closed-form" in fires(replay_shear, impl, wrong))
     f = fires(replay_shear, Impl(pd, "rightCG"), sh)
-    chk.control("replayer-flags-helper-disagreement-for-mutant", "axis-disagrees-with-angle-helper" in f, str(f))
+    impl_control("replayer-flags-helper-disagreement-for-mutant", "axis-disagrees-with-angle-helper" in f, str(f))
 
     # ---- 2. code -> spec: float concretisation of the relational clauses, judged by TLC
     reps_tex, reps_fse = (3, 20) if quick else (24, 300)
     events = concretise(impl, scen, reps_tex, reps_fse)
     # controls ride in the same judge run: corrupted measure lines and a mutant implementation
     ctl = []
-    base_tex = next(e for e in events if e["kind"] == "tex" and e["m"]["gap_e9"] >= 10_000_000 and e["m"]["iso_e9"] >= 10_000_000)
+    base_tex = dict(kind="tex", finite=True, cls="control", n=50, axis="b", rep=0, m=dict(ZERO_TEX, gap_e9=500_000_000, iso_e9=500_000_000))
     for field, clause in (("sum1", "pgr-sum-not-1"), ("frameAxis", "mean-axis-does-not-corotate"), ("foldScal", "twofold-changes-scalars"), ("coaxOut", "coaxial-outside-unit-interval"), ("permCoax", "permutation-changes-coaxial"), ("eigres", "mean-not-principal-eigenvector")):
         e = json.loads(json.dumps(base_tex))
         e["m"][field] = 5_000_000  # 5e-9 > 1e-9
@@ -533,7 +556,13 @@ def main(tier):
     e["m"].update(coaxOut=2_000_000_000, frameCoax=2_000_000_000, iso_e9=10)
     e["sid"] = "ctl/excluded/coax"
     ctl.append((e, "scatter-isotropic", False))
-    base_fse = next(e for e in events if e["kind"] == "fse" and e["cls"] == "simple_shear_yx" and e["m"]["gap_e9"] >= 10_000_000)
+    e = json.loads(json.dumps(base_tex))
+    e.update(finite=False, sid="ctl/corrupt/finite")
+    ctl.append((e, "not-finite", True))
+    e = json.loads(json.dumps(base_tex))
+    e["sid"] = "ctl/clean"
+    ctl.append((e, None, False))
+    base_fse = dict(kind="fse", finite=True, cls="simple_shear_yx", n=0, axis="-", rep=0, m=dict(ZERO_FSE, gap_e9=500_000_000))
     for field, clause in (("stretch", "not-largest-principal-stretch"), ("leftAxis", "axis-does-not-corotate"), ("rightStretch", "prior-rotation-changes-stretch")):
         e = json.loads(json.dumps(base_fse))
         e["m"][field] = 5_000_000
@@ -570,6 +599,8 @@ def main(tier):
         clauses, skips = verdicts[e["sid"]]
         if rejected:
             chk.control("judge-rejects-" + e["sid"], clauses == [clause], str(clauses))
+        elif clause is None:
+            chk.control("judge-accepts-" + e["sid"], clauses == [] and skips == [], f"{clauses} {skips}")
         else:
             chk.control("judge-excludes-" + e["sid"], clauses == [] and clause in skips, f"{clauses} {skips}")
     for tag, needed in (("ctl/mutant-columns/", {"frame-rotation-changes-scalars", "mean-axis-does-not-corotate"}), ("ctl/mutant-rightCG/", {"axis-does-not-corotate", "prior-rotation-changes-axis", "axis-disagrees-with-angle-helper"})):
@@ -577,11 +608,12 @@ def main(tier):
         for e in mut_events:
             if e["sid"].startswith(tag):
                 got |= set(verdicts[e["sid"]][0])
-        chk.control("judge-rejects-" + tag.strip("/").split("/")[1], needed <= got, str(sorted(got)))
+        impl_control("judge-rejects-" + tag.strip("/").split("/")[1], needed <= got, str(sorted(got)))
 
     return chk.finish(
         rule="exact: every CASE record TLC emits (count triple x crystal axis x rational frame rotation x permutation/two-fold pattern; "
-        "stretch triple x principal frame x (R', Q'); tan(theta) x shear geometry), distinct by descriptor; float: every SCEN class "
+        "stretch triple x principal frame x (R', Q'); tan(theta) x shear geometry), distinct by descriptor, non-trivial when the frame "
+        "rotation is not axis-aligned (tex) / F is non-symmetric with a simple largest stretch (fse); float: every SCEN class "
         "(texture class x size x axis; deformation-gradient class) x seeded repetitions, each with a random permutation, two-fold "
         "pattern and frame rotation, distinct by scenario id",
         exhaustive=False,
